@@ -26,7 +26,48 @@ def kw_for_worker(opts):
     return opts
 
 
+def unit_shapes(unit):
+    """C01 on non-string values: evaluated on the real code (no free variable to solve for): None, bool, int, float, bytes,
+    lists / tuples / dicts of non-strings, a plain object and a str subclass instance"""
+    from symx.replay import Obj, StrSub
+    ur = UnitResult(unit, max_samples=4)
+    shapes = [('None', None), ('True', True), ('int', 7132), ('negative int', -5), ('float', 1.5), ('nan', float('nan')), ('bytes', b'0123456789'),
+              ('empty bytes', b''), ('list of ints', [1, 2, 3]), ('list with None', ['1', None]), ('tuple', (1, '2')), ('dict', {'a': 1}), ('empty list', []),
+              ('object', Obj()), ('str subclass', StrSub('0123456789')), ('set', {'1'}), ('nested list', [['1', '2'], '3'])]
+    facts = 0
+    for modname in unit['modules']:
+        for label, v in shapes:
+            real = ur.replay([step(modname, 'validate', v), step(modname, 'is_valid', v)])
+            if real is None:
+                continue
+            facts += 1
+            r0, r1 = real
+            bad = None
+            if r0['kind'] == 'exc' and not r0['validation_error']:
+                bad = ('foreign-exception', 'validate', r0)
+            elif r0['kind'] == 'ret' and r0['type'] != 'str' and not label.startswith('str subclass'):
+                bad = ('non-str-return', 'validate', r0)
+            elif r1['kind'] == 'exc':
+                bad = ('is_valid-raises', 'is_valid', r1)
+            elif r1['type'] != 'bool' or r1['value'] != (r0['kind'] == 'ret'):
+                bad = ('is_valid-disagrees', 'is_valid', r1)
+            ur.res['obligations'] += 1
+            if bad is None:
+                ur.res['discharged'] += 1
+                continue
+            kind, func, r = bad
+            ur.violation({'module': modname, 'func': func, 'options': '', 'kind': kind, 'exc_type': r.get('type') if r['kind'] == 'exc' else '', 'frame': r.get('frame', ''),
+                          'witness': label, 'detail': 'non-string argument (%s): %s' % (label, r.get('msg') or r.get('value')),
+                          'steps': [step(modname, 'validate', v), step(modname, 'is_valid', v)]})
+    ur.res['states'] = max(1, facts)
+    ur.res['transitions'] = max(1, facts)
+    ur.sample({'non_string_shapes': [l for l, v in shapes], 'modules': len(unit['modules']), 'ground_facts': facts})
+    return ur.finish()
+
+
 def unit_fn(unit):
+    if unit.get('kind') == 'shapes':
+        return unit_shapes(unit)
     prop = unit['prop']
     modname, opts, L, K = unit['module'], unit['options'], unit['L'], unit['K']
     E.install(common.REPO)
@@ -82,7 +123,7 @@ def unit_fn(unit):
                 ur.res['unknown'] += 1
             ur.outcome('no-witness')     # path infeasible under the full condition, or solver unknown (counted in st.unknown)
             continue
-        xs = E.model_str(model, rec['x'])
+        xs = E.model_val(model, rec['x']) if isinstance(rec['x'], (list, tuple)) else E.model_str(model, rec['x'])
         today = ur.today_of(st, model)
         base = {'module': modname, 'func': 'validate', 'options': json.dumps(opts, sort_keys=True) if opts else '',
                 'witness': xs, 'today': today.isoformat() if today else None, 'L': L, 'tags': list(st.tags)}
@@ -205,7 +246,7 @@ def _c02(ur, st, rec, base, real, model):
 
 
 def _confirm_c02(ur, st, rec, base, m2, kind):
-    xs = E.model_str(m2, rec['x'])
+    xs = E.model_val(m2, rec['x']) if isinstance(rec['x'], (list, tuple)) else E.model_str(m2, rec['x'])
     today = ur.today_of(st, m2)
     opts = json.loads(base['options']) if base['options'] else {}
     real = ur.replay([step(base['module'], 'validate', xs, **opts), step(base['module'], 'validate', Ref(0), **opts)], today)
@@ -258,6 +299,10 @@ def make_units(prop, tier, only=None):
     from spec.options import option_sets, accepted_by
     intro = common.introspect()
     units = []
+    if prop == 'C01':
+        names = [m for m in sorted(intro) if not only or m in only]
+        for i in range(0, len(names), 40):
+            units.append({'prop': prop, 'kind': 'shapes', 'module': 'non-string values', 'modules': names[i:i + 40], 'options': {}, 'L': 0, 'K': 0, 'max_paths': 1, 'timeout': 120, 'query_timeout_ms': 1000})
     for modname, info in sorted(intro.items()):
         if only and modname not in only:
             continue
@@ -272,6 +317,11 @@ def make_units(prop, tier, only=None):
                     u.update(max_paths=2000, timeout=30, query_timeout_ms=5000)
                 else:
                     u.update(max_paths=50000, timeout=600, query_timeout_ms=60000)
+                units.append(u)
+        if prop == 'C01' and Ls:
+            for shape in ('list', 'tuple') if tier != 'quick' else ('list',):
+                u = {'prop': prop, 'module': modname, 'options': {}, 'L': min(Ls[0], 6), 'K': 1, 'shape': shape, 'is_valid_takes_options': True}
+                u.update(dict(max_paths=400, timeout=8, query_timeout_ms=4000) if tier == 'quick' else dict(max_paths=5000, timeout=120, query_timeout_ms=30000))
                 units.append(u)
         import random
         rnd = random.Random(common.seed() * 7919 + len(units))
